@@ -28,7 +28,11 @@ def configs(tier):
         out.append({'name': 'conv-impulse-%dx%d' % (m, n), 'kind': 'impulse', 'shape': [m, n]})
         for shift in (True, False):
             out.append({'name': 'tf-%dx%d-%s' % (m, n, 'shifted' if shift else 'unshifted'), 'kind': 'tf', 'shape': [m, n], 'shift': shift})
-    for (m, n) in ([(1, 2), (2, 2), (2, 3), (3, 2), (3, 3)] if q else [(1, 2), (2, 2), (2, 3), (3, 2), (3, 3), (3, 4), (4, 4)]):
+    # the library's own transfer functions as callables in one list (they are handed the same frequency arrays)
+    for (m, n) in ([(2, 3)] if q else [(2, 3), (3, 3), (3, 2)]):
+        out.append({'name': 'tf-library-callables-%dx%d' % (m, n), 'kind': 'tflib', 'shape': [m, n]})
+    # (4x2, 2x4: per-axis different n//2)
+    for (m, n) in ([(1, 2), (2, 2), (2, 3), (3, 2), (3, 3), (4, 2), (2, 4)] if q else [(1, 2), (2, 2), (2, 3), (3, 2), (3, 3), (4, 2), (2, 4), (3, 4), (4, 4)]):
         out.append({'name': 'mtf-%dx%d' % (m, n), 'kind': 'mtf', 'shape': [m, n]})
     for (m, n) in ([(1, 2), (2, 2), (1, 3), (2, 3)] if q else [(1, 2), (2, 2), (1, 3), (2, 3), (3, 3)]):
         out.append({'name': 'mtf-le-1-%dx%d' % (m, n), 'kind': 'mtf_le', 'shape': [m, n]})
@@ -38,6 +42,8 @@ def configs(tier):
 def params(cfg):
     if cfg['kind'] == 'tf':
         return [('dx', {'pos': True})]
+    if cfg['kind'] == 'tflib':
+        return [('dx', {'pos': True}), ('s1', {'pos': True}), ('s2', {'pos': True}), ('w', {'pos': True})]
     if cfg['kind'] in ('mtf', 'mtf_le'):
         m, n = cfg['shape']
         return [('dx', {'pos': True})] + [('h_%d_%d' % (i, j), {'pos': True}) for i in range(m) for j in range(n)]
@@ -79,6 +85,21 @@ def run(cfg, H):
                 d[py, px] = 1
                 got = cv.conv(o, d)
                 H.eq('impulse at offset (%d,%d) translates the object by that offset' % (py - cy, px - cx), got, roll2(H, o, py - cy, px - cx))
+    elif k == 'tflib':
+        from functools import partial
+        deg = H.mod('prysm.degredations')
+        dx, s1, s2, w = H.param('dx'), H.param('s1'), H.param('s2'), H.param('w')
+        o = H.rarray('o', (m, n))
+        j1, j2 = partial(deg.jitter_ft, scale=s1), partial(deg.jitter_ft, scale=s2)
+
+        def user(fr):                    # a caller's own callable of the radial frequency
+            return 1 / (1 + w * fr * fr)
+
+        def run_(tfs, obj=o):
+            return cv.apply_transfer_functions(obj, dx, tfs, shift=True)
+        H.eq('library callable first or last gives the same image', run_([j1, user]), run_([user, j1]))
+        H.eq('a list of two library callables equals one after the other', run_([j1, j2]), run_([j2], run_([j1])))
+        H.eq('two library callables commute', run_([j1, j2]), run_([j2, j1]))
     elif k == 'tf':
         shift = cfg['shift']
         dx = H.param('dx')
